@@ -102,6 +102,13 @@ def random_crystal(rng, molecular=False):
                 els.append(Element[18])
                 names = names + ["argon"]
             cart = np.vstack(carts)
+            if len(names) > 1 and rng.random() < 0.5:
+                # the atoms of the molecules are LISTED interleaved (as after sorting a file by element or label): the k-th atom of the
+                # first unique molecule is then not the k-th site of the asymmetric unit
+                perm = list(range(len(els)))
+                rng.shuffle(perm)
+                els = [els[i_] for i_ in perm]
+                cart = cart[perm]
             c = Crystal(uc, sg, AsymmetricUnit(els, uc.to_fractional(cart)))
             try:
                 mols = c.symmetry_unique_molecules()
@@ -424,6 +431,12 @@ def correspond(ctx):
         radius = rng.uniform(2.0, 12.0)
         D = np.asarray(c.unit_cell.direct, dtype=float)
         star = np.linalg.norm(np.linalg.inv(D), axis=0)
+        # the box is sized with the cell's own reciprocal lengths: they must be the column norms of the inverse cell matrix (the
+        # hypothesis under which `ball_in_frac_box` applies; C12 proves it for the formulas, here it is checked on the object in use)
+        own = np.array([c.unit_cell.a_star, c.unit_cell.b_star, c.unit_cell.c_star], dtype=float)
+        if np.abs(own - star).max() > 1e-9 * star.max():
+            ctx.disagree("search box", {"kind": kind, "cell": np.round(c.unit_cell.lengths, 4).tolist() + np.round(np.degrees(c.unit_cell.angles), 3).tolist()},
+                         f"|a*|,|b*|,|c*| = {star.tolist()} (column norms of the inverse cell matrix)", f"a_star, b_star, c_star = {own.tolist()}")
         rec = []
         orig = cc.Crystal.slab
 
